@@ -81,6 +81,22 @@ pub fn check(s: &Scenario) -> CheckResult {
         }
         let reads: Vec<Option<Datum<State>>> = dev.terms.iter().map(|t| read_state(*t)).collect();
         let own_before: Vec<Option<Datum<State>>> = dev.terms.iter().map(|t| own_state(*t)).collect();
+        // "the states read at its terminals": a read is the mean of the terminal's own and its partner's latest states (or
+        // whichever exists), stamped with the newer of the two - checked against the two slots themselves
+        for i in 0..n {
+            let partner = ext[i].and_then(own_state);
+            let want = match (own_before[i], partner) {
+                (None, None) => None,
+                (Some(d), None) | (None, Some(d)) => Some(d),
+                (Some(a), Some(b)) => Some(Datum::new(if a.time >= b.time { a.time } else { b.time }, (a.value + b.value) / 2.0)),
+            };
+            let same = match (reads[i], want) {
+                (None, None) => true,
+                (Some(g), Some(w)) => g.time == w.time && flat(g.value).iter().zip(flat(w.value).iter()).all(|(x, y)| same_f32(*x, *y) || ((*x as f64 - *y as f64).abs() <= 2.0 * ulp32(*y as f64))),
+                _ => false,
+            };
+            ensure!(same, format!("C08/{}/terminal-read", dname), "round {}: terminal {} holds {:?}, its partner {:?}; the state read there is {:?}, expected their mean stamped with the newer time {:?}", ri, i, own_before[i], partner, reads[i], want);
+        }
         let r = catch(|| (dev.update)());
         ensure!(matches!(r, Ok(Ok(()))), format!("C08/{}/update-failed", dname), "round {}: update returned {:?}", ri, r);
         let own_after: Vec<Option<Datum<State>>> = dev.terms.iter().map(|t| own_state(*t)).collect();
